@@ -24,7 +24,7 @@ LEVEL_TEXT = ('proof (full on the model): single_flight, no_reinvoke_after_succe
               'accepted by the model Cache.step (inductive invariants CacheInv.Inv, CacheInv2.Inv2), and ok_C01_sound(_prefix): '
               'every accepted trace satisfies the trace monitor; ok_C01_implies_no_overlap / _no_reinvoke / _ret_is_success: an accepted '
               'trace (of the model OR of the implementation) satisfies the property read on the trace alone; '
-              'single_flight_refuted_without_fix1 documents defect F1; seq_run_accepted / seq_call_refines_keys tie the model to '
+              'single_flight_refuted_without_fix1 documents defect F1; seq_run_accepted / seq_call_refines_keys(_default) tie the model to '
               'C14\'s sequential Keys.v; model tied to the code by differential correspondence')
 LEVEL_NOTE = ('All five theorems closed under the global context; any number of loops / callers / keys / steps.  "In progress '
               'on running loops" is the model status IActive (an invocation left pending on a stopped loop is IAband from that '
